@@ -1440,6 +1440,7 @@ class Wtp:
                     # Expand template/parserfn name
                     self.expand_stack.append("TEMPLATE_NAME")
                     tname = expand_recurse(args[0], parent, expand_all)
+                    expanded_name_arg = tname
                     self.expand_stack.pop()
 
                     # Remove <noinvoke/>
@@ -1515,8 +1516,11 @@ class Wtp:
                         # arguments, because those parser functions could
                         # refer to its parent frame and fail if expanded
                         # after eliminating the intermediate templates.
-                        new_args = tuple(
-                            expand_recurse(x, parent, expand_all) for x in args
+                        # The name was already expanded above; expanding it
+                        # again here made nested names take exponential time.
+                        new_args = (expanded_name_arg,) + tuple(
+                            expand_recurse(x, parent, expand_all)
+                            for x in args[1:]
                         )
                         parts.append(
                             self._unexpanded_template(new_args, nowiki)
